@@ -21,7 +21,9 @@ if [ -n "$CARGS$TOOL" ]; then
 fi
 SUITE=$(cargo test --offline 2>&1 | grep -E "^test result" | awk '{p+=$4; f+=$6} END {print p" passed "f" failed"}')
 cp "$SRC/demo.rs" tests/seed_demo.rs
-DEMO_WITH=$(cargo $TOOL test --offline $CARGS --test seed_demo 2>&1 | grep -E "^test result" | head -1)
+DEMO_OUT=$(cargo $TOOL test --offline $CARGS --test seed_demo 2>&1); DEMO_RC=$?
+DEMO_WITH=$(echo "$DEMO_OUT" | grep -E "^test result" | head -1)
+if [ -z "$DEMO_WITH" ] && [ $DEMO_RC -ne 0 ]; then DEMO_WITH="FAILED (test process died: $(echo "$DEMO_OUT" | grep -E "signal|SIGABRT|SIGSEGV|unsafe precondition" | head -1 | cut -c1-160))"; fi
 git checkout -q -- . 
 DEMO_WITHOUT=$(cargo $TOOL test --offline $CARGS --test seed_demo 2>&1 | grep -E "^test result" | head -1)
 rm -f tests/seed_demo.rs
